@@ -34,6 +34,9 @@ INT_RE = re.compile(r"^(-?\d+)_([iu](?:8|16|32|64|128|size))$")
 def const_term(k):
     ty = k["ty"]
     if "fn" in k:
+        if k["fn"].endswith("future::Future::poll"):
+            # keep the trait method: the resolved callee of a poll is the coroutine body itself
+            return ("fn", "std::future::Future>::poll", k.get("fnargs", ""))
         return ("fn", strip_generics(k.get("rfn", k["fn"])), k.get("fnargs", ""))
     if "closure" in k:
         return ("closure", k["closure"], ())
@@ -62,6 +65,13 @@ def const_value(t):
 def mk_place(base, proj):
     """Normalise: deref of ref cancels; nested places flatten; field of aggregate selects operand."""
     for e in proj:
+        if base[0] == "call" and isinstance(e, tuple) and e[0] == "d" and e[2] == "Ready" and isinstance(base[2], str) and base[2].endswith("Future>::poll"):
+            # `.await` desugaring: match poll(Pin::new_unchecked(&mut into_future(X)), cx) { Ready(v) => v, Pending => yield }
+            base = ("await", await_inner(base[3][0]))
+            continue
+        if base[0] == "await" and isinstance(e, tuple) and e[0] == "f" and e[1] == 0 and len(base) == 2:
+            base = ("await", base[1], "v")
+            continue
         if e == "*":
             if base[0] == "ref":
                 base = base[1]
@@ -82,6 +92,16 @@ def mk_place(base, proj):
         else:
             base = ("pl", base, (e,))
     return base
+
+
+def await_inner(t):
+    while True:
+        if t[0] == "ref":
+            t = t[1]
+        elif t[0] == "call" and isinstance(t[2], str) and (t[2].endswith("Pin::new_unchecked") or t[2].endswith("into_future") or t[2].endswith("Pin::new")):
+            t = t[3][0]
+        else:
+            return t
 
 
 def proj_of(jp):
@@ -164,8 +184,25 @@ class Walker:
         if "m" in o:
             return self.place(st, o["m"])
         if "k" in o:
-            return const_term(o["k"])
+            k = o["k"]
+            if "promoted" in k:
+                return self.promoted(k["promoted"])
+            return const_term(k)
         return ("?", str(o))
+
+    def promoted(self, idx):
+        cache = self.b.__dict__.setdefault("_promoted_terms", {})
+        if idx not in cache:
+            from facts import Body
+            pj = self.b.j.get("promoted")
+            if pj is None or idx >= len(pj):
+                cache[idx] = ("c", "promoted", "promoted[%d]" % idx)
+            else:
+                pb = Body(self.b.facts, pj[idx])
+                ps = Walker(pb, max_paths=50).run()
+                rets = [e[2] for p in ps for e in p if e[0] == "ret"]
+                cache[idx] = rets[0] if len(rets) == 1 else ("c", "promoted", "promoted[%d]" % idx)
+        return cache[idx]
 
     def rvalue(self, st, r, bb):
         k = r["k"]
@@ -311,6 +348,8 @@ class Walker:
                 vals = t["vals"]
                 listed = tuple(v for v, _ in vals)
                 cv = switch_const(term)
+                if cv is None and term[0] == "discr" and term[1][0] == "call" and isinstance(term[1][2], str) and term[1][2].endswith("Future>::poll"):
+                    cv = 0  # Poll::Ready: the Pending arm only yields and polls the same future again
                 if cv is None and self.decide is not None:
                     cv = self.decide(term, listed)
                 if cv is not None:
@@ -454,6 +493,8 @@ def show(t, depth=0):
         return "closure<%s>" % short(t[1])
     if k == "yield":
         return "resume@%d" % t[1]
+    if k == "await":
+        return "%s.await" % show(t[1], depth + 1)
     return str(t)
 
 
@@ -473,7 +514,7 @@ def subterms(t):
     k = t[0]
     if k == "pl":
         yield from subterms(t[1])
-    elif k in ("ref", "discr", "len"):
+    elif k in ("ref", "discr", "len", "await"):
         yield from subterms(t[1])
     elif k == "call":
         for a in t[3]:
